@@ -2,6 +2,7 @@ mod checks;
 mod core;
 mod corpus;
 mod engines;
+mod ift;
 
 use crate::core::runner::{self, DriverOpts, WorkerArgs};
 
